@@ -90,7 +90,8 @@ example : (execHist {} routeRemoveHist).map (·.2) = some [Msg.vtepUpdate "n2" "
 /-- Closure hypothesis discharged on the resolver side, for histories with ARBITRARY sync-status
 sequences (status regressions after in-sync included; `Event.status` is just another event of the
 history): after any history followed by a flush, the last `OnEndpointTierUpdate` the PolicyResolver
-has handed to the sequencer for an endpoint lists only policies that currently match that endpoint.
+has handed to the sequencer for an endpoint lists only policies that currently match that endpoint
+(`matchedHistory [] hist`: the match-started calls of the history not yet followed by match-stopped).
 So when the ActiveRulesCalculator declares a policy inactive (its last match stopped) no endpoint
 update presented to the sequencer references it: the endpoint → policy part of `ClosedAtFlushes`
 holds at every flush of the real wiring (resolver flushed before the sequencer).  What makes this
@@ -100,8 +101,11 @@ resets `inSync`); with `InitialSyncCompleted = (status == InSync)` the real code
 theorem status_latch_refs_live (K : PolicyKey → Prop) (hK : C03.KeyU K) (hist : List C03.RStep) (hin : C03.HistIn K hist)
     (r : C03.Resolver) (L : C03.Last) (hr : C03.runL {} (fun _ => none) (hist ++ [.flush]) = some (r, L))
     (e : EpKey) (u : EpUpd) (hu : L e = some (some u)) :
-    ∀ t ∈ u.tiers, ∀ kv ∈ t.policies, (kv.key, e) ∈ r.matched :=
-  C03.last_update_refs_live hK hist hin hr e u hu
+    ∀ t ∈ u.tiers, ∀ kv ∈ t.policies, (kv.key, e) ∈ C03.matchedHistory [] hist := by
+  have h := C03.last_update_refs_live hK hist hin hr e u hu
+  have t2 := (C03.runL_tables (hist ++ [.flush]) hr).2.1
+  rw [(C03.tables_append_flush hist).2.1] at t2
+  rw [← t2]; exact h
 
 /-! ### the route → VTEP part of (i) is FALSE of the current code -/
 
